@@ -74,20 +74,17 @@ func (s *Store) compactMaybe(higher Snapshot,
 
 	var sizeBefore, sizeAfter int64
 
-	{
-		// Any segment will do, also one of a child collection when the
-		// top-level collection has none: they all share one file.
-		mref := footer.anyMmapRef()
-		if mref != nil && mref.fref != nil {
-			var finfo os.FileInfo
-			if partialCompactStart == 0 {
-				finfo, err = s.removeFileOnClose(mref.fref)
-			} else {
-				finfo, err = mref.fref.file.Stat()
-			}
-			if err == nil && len(finfo.Name()) > 0 {
-				sizeBefore = finfo.Size() // Fetch old file size.
-			}
+	// NOTE: The old footer knows its file, also when the top-level
+	// collection has no persisted segments that would refer to it.
+	if oldFref := footer.fref; oldFref != nil {
+		var finfo os.FileInfo
+		if partialCompactStart == 0 {
+			finfo, err = s.removeFileOnClose(oldFref)
+		} else {
+			finfo, err = oldFref.file.Stat()
+		}
+		if err == nil && len(finfo.Name()) > 0 {
+			sizeBefore = finfo.Size() // Fetch old file size.
 		}
 	}
 
@@ -336,6 +333,8 @@ func (s *Store) compact(footer *Footer, partialCompactStart int,
 		}
 		return err
 	}
+
+	compactFooter.setFileRef(frefCompact)
 
 	s.m.Lock()
 	footerPrev := s.footer
